@@ -7,6 +7,7 @@ import (
 	"encoding/json"
 	"fmt"
 	"math/rand/v2"
+	"runtime"
 	"sort"
 	"strings"
 	"sync"
@@ -426,6 +427,12 @@ func Execute(t *testing.T, sc Scenario, c *Case, recording bool, tapeSeed uint64
 			v.Probes = env.Probes()
 			if trace {
 				v.Trace = s.Trace()
+				// where every goroutine of the run stands (to explain hangs)
+				buf := make([]byte, 1<<20)
+				n := runtime.Stack(buf, true)
+				for _, l := range strings.Split(string(buf[:n]), "\n") {
+					v.Trace = append(v.Trace, "STACK "+l)
+				}
 			}
 			if len(v.Sample) == 0 {
 				for _, h := range env.History() {
